@@ -256,6 +256,11 @@ def run(prog, ctx):
               "initialize -> loop over the whole scheme -> get_result, and the result read after the loop is returned",
               "perform_operation: " + "; ".join(problems))
 
+    # ------------------------------------------------------------------ D4b: the standard scheme is the closed form only while the
+    # instance's CombiScheme is NOT in the adaptive state; nobody but an adaptive driver's set-up may switch it (rule shared with C01.D1)
+    from .C01 import check_initialisation
+    check_initialisation(prog, ctx, prog.cls("combiScheme.CombiScheme"), "C02.D4")
+
     # ------------------------------------------------------------------ D3
     g = prog.cls("Grid.Grid")
     gp, gw = prog.func("Grid.Grid.getPoints"), prog.func("Grid.Grid.get_weights")
